@@ -676,9 +676,8 @@ func (h *Handler) GetClaims(req *ClaimsRequest) (*ClaimsResponse, error) {
 func (h *Handler) serveClaims(rw http.ResponseWriter, req *http.Request) {
 	defer httputil.RecoverJSON(rw, req)
 
-	h.index.RLock()
-	defer h.index.RUnlock()
-
+	// GetClaims takes the index read lock itself. Taking it here as well
+	// deadlocks once a writer queues between the two acquisitions.
 	var cr ClaimsRequest
 	cr.fromHTTP(req)
 	res, err := h.GetClaims(&cr)
